@@ -172,6 +172,12 @@ def oracle_large(case):
 
 
 @st.composite
+def wass_large_case(draw):
+    gs = draw(objs.gemini_spec(bases=("wasserstein",), metric_forms=("named", "randdist")))
+    return {"g": gs, "p": draw(gens.p_spec(n_min=40, n_max=150, k_min=2, k_max=6)), "x": draw(gens.x_spec(d_max=3, kinds=("normal", "grid")))}
+
+
+@st.composite
 def huge_case(draw):
     gs = draw(objs.gemini_spec(bases=("tv", "kl", "mmd", "hellinger", "chi2"), kernel_forms=("named",)))
     return {"g": gs, "p": draw(gens.p_spec(n_min=1025, n_max=2600, k_min=2, k_max=5)), "x": draw(gens.x_spec(d_max=2, kinds=("normal",)))}
@@ -187,6 +193,7 @@ def subs():
     return [
         Sub("huge_nk", huge_nk_case(), oracle_large, 40, 500, "n*K^2 beyond 2^20 (n up to 1700 with K up to 48)"),
         Sub("huge_n", huge_case(), oracle_large, 80, 800, "n in (1024, 2600]: block sizes of 1024/2048 rows"),
+        Sub("wasserstein_large", wass_large_case(), oracle_large, 16, 500, "Wasserstein on 40-150 samples, up to 6 clusters (LP reference)"),
         Sub("large_shapes", large_case(), oracle_large, 600, 12000, "n up to 320 and K up to 48 (size thresholds, blocked code paths)"),
         Sub("fdivergences", fdiv_case(), oracle_fdiv, 6000, 100000, "4 f-divergence classes x ovo (+MI shortcut)"),
         Sub("mmd", mmd_case(), oracle_mmd, 4000, 60000, "MMDGEMINI over kernel forms"),
